@@ -42,6 +42,15 @@ ASSUMPTIONS = [
     "python backend only (cotengrust absent); parallel=False, or (forest / tempering) a harness pool that runs each task at submit time and returns genuine, already completed concurrent.futures.Future objects",
 ]
 
+def known_many_parts(case_or_spec, v):
+    """Open finding (never generated: it depends on the wall clock): build_divide
+    with so many parts that the super-graph is handed to the time limited,
+    unseeded 'auto-hq' hyper-optimizer."""
+    return "build_divide" in v and "parts=1" in v and False
+
+
+KNOWN = {"build_divide_many_parts_unseeded_super_optimize": known_many_parts}
+
 TREE_APIS = ["slice", "slicefinder", "reconf", "reconf_forest", "anneal", "temper", "unslice_rand", "get_subtree"]
 NET_APIS = [
     "random_greedy_opt", "random_greedy_fn", "random_opt", "labels_divide", "labels_agglom", "kahypar_divide",
@@ -57,6 +66,8 @@ ORDINARY_NET_APIS = ("greedy_compressed", "greedy_span", "windowed", "compressed
 def case(draw):
     api = draw(st.sampled_from(TREE_APIS + TREE_APIS + NET_APIS + GEN_APIS))
     c = {"api": api, "seed": draw(st.integers(0, 2**31 - 1))}
+    # one case in eight also gives the seed as a numpy integer: same integer, same result
+    c["seed_np"] = draw(st.integers(0, 7)) == 0
     if api in TREE_APIS:
         # a third of the tree cases call the seeded operation twice on ONE tree
         # object, optionally one that has been reconfigured before
@@ -207,6 +218,15 @@ def judge(cases, per_case):
     for i, digs in enumerate(per_case):
         canon = [json.dumps(d, sort_keys=True) for d in digs]
         d0 = digs[0]
+        if isinstance(d0, dict) and set(d0) == {"int_seed", "numpy_seed"} and d0["int_seed"] != d0["numpy_seed"]:
+            bad.append(
+                (
+                    i,
+                    f"{cases[i]['api']}(seed={cases[i]['seed']}): the seed given as numpy.int64 gives "
+                    f"{json.dumps(d0['numpy_seed'])[:140]}, given as int {json.dumps(d0['int_seed'])[:140]}",
+                )
+            )
+            continue
         if isinstance(d0, dict) and set(d0) == {"first", "second"} and d0["first"] != d0["second"]:
             bad.append(
                 (
